@@ -463,7 +463,7 @@ func (x *Exec) subObj(structT types.Type, field string, r string) string {
 	inv := "|par:" + typeKey(structT) + "." + field + "|"
 	x.reg.declare(f, "(Int) Int")
 	x.reg.declare(inv, "(Int) Int")
-	x.reg.axiom(f, "inj", fmt.Sprintf("(forall ((r Int)) (! (and (= (%s (%s r)) r) (= (top (%s r)) (top r)) (not (= (%s r) 0)) (not (= (%s r) r))) :pattern ((%s r))))", inv, f, f, f, f, f))
+	x.reg.axiom(f, "inj", fmt.Sprintf("(forall ((r Int)) (! (and (= (%s (%s r)) r) (= (top (%s r)) (top r)) (not (= (%s r) 0)) (not (= (%s r) r)) (not (= (top (%s r)) (%s r)))) :pattern ((%s r))))", inv, f, f, f, f, f, f, f))
 	return "(" + f + " " + r + ")"
 }
 
@@ -476,7 +476,7 @@ func (x *Exec) elemObj(elemT types.Type, b, i string) string {
 	x.reg.declare(f, "(Int Int) Int")
 	x.reg.declare(fb, "(Int) Int")
 	x.reg.declare(fi, "(Int) Int")
-	x.reg.axiom(f, "inj", fmt.Sprintf("(forall ((b Int) (i Int)) (! (and (= (%s (%s b i)) b) (= (%s (%s b i)) i) (= (top (%s b i)) (top b)) (not (= (%s b i) 0))) :pattern ((%s b i))))", fb, f, fi, f, f, f, f))
+	x.reg.axiom(f, "inj", fmt.Sprintf("(forall ((b Int) (i Int)) (! (and (= (%s (%s b i)) b) (= (%s (%s b i)) i) (= (top (%s b i)) (top b)) (not (= (%s b i) 0)) (not (= (top (%s b i)) (%s b i)))) :pattern ((%s b i))))", fb, f, fi, f, f, f, f, f, f))
 	return "(" + f + " " + b + " " + i + ")"
 }
 
